@@ -330,6 +330,37 @@ def main() -> int:
             n_same += 1
             if n_same >= 8:
                 break
+        # falsy values are values: an explicit 0 for a parameter that has a default is not "argument omitted"
+        n_zero = 0
+        for args_text, pos, kw in all_shapes[:40]:
+            cands = [n for n in (pos + kw) if sp["values"][n].replace(".", "", 1).isdigit() and n in sig.parameters and sig.parameters[n].default is not inspect.Parameter.empty]
+            if not cands:
+                continue
+            pn = cands[n_zero % len(cands)]
+            vals2 = dict(sp["values"])
+            vals2[pn] = "0"
+            parts = [vals2[n] for n in pos] + [f"{n}={vals2[n]}" for n in kw]
+            extra.append((", ".join(parts), pos, kw, {pn: 0}))
+            n_zero += 1
+            if n_zero >= 10:
+                break
+        rep.count("zero_valued_shapes", n_zero)
+        # parameters that are fractions in the Python signature keep their fraction (whole-number sentinels cannot tell)
+        float_pnames = {pp for f2, (pp, cv) in sp["fields"].items() if cv in (float, "optf")}
+        n_frac = 0
+        for args_text, pos, kw in all_shapes[:40]:
+            cands = [n for n in (pos + kw) if n in float_pnames and sp["values"][n].isdigit()]
+            if not cands:
+                continue
+            pn = cands[n_frac % len(cands)]
+            vals2 = dict(sp["values"])
+            vals2[pn] = sp["values"][pn] + ".5"
+            parts = [vals2[n] for n in pos] + [f"{n}={vals2[n]}" for n in kw]
+            extra.append((", ".join(parts), pos, kw, {pn: float(vals2[pn])}))
+            n_frac += 1
+            if n_frac >= 8:
+                break
+        rep.count("fractional_valued_shapes", n_frac)
         rep.count("equal_text_shapes", n_same)
         rep.count("expression_valued_shapes", len(extra))
         for shape in [x + ({},) for x in all_shapes] + extra:
